@@ -2126,9 +2126,9 @@ class TestGraph(object):
 
             if next.is_occupied(worker):
                 # ending with an occupied node would mean we wait for a permill of its duration
-                test_duration = next.params.get_numeric(
-                    "test_timeout", 3600
-                ) * next.params.get_numeric("max_tries", 1)
+                test_duration = next.params.get_numeric("test_timeout", 3600) * max(
+                    next.params.get_numeric("max_tries", 1), 1
+                )
                 occupied_timeout = round(max(test_duration / 1000, 0.1), 2)
                 # despite ergodicity we ended at the same node (no other work)
                 if next in occupied_at:
